@@ -30,7 +30,8 @@ pub fn axis_coincidence(rng: &mut Rng, n: usize, mean_first: bool) -> Vec<f64> {
         if steps.iter().all(|&s| (s - 1.0).abs() < 1e-12) {
             continue; // accidentally even
         }
-        let a = if rng.bool() { 0.0 } else { rng.range(-6, 6) as f64 * 0.5 };
+        // index-like axes start at exactly 0 (and end at exactly n-1); the other kind starts anywhere
+        let a = if !mean_first { 0.0 } else { rng.range(-6, 6) as f64 * 0.5 };
         let mut x = vec![a];
         for s in &steps {
             let l = *x.last().unwrap();
